@@ -10,6 +10,7 @@ import (
 	"archive/zip"
 	"encoding/binary"
 	"fmt"
+	"github.com/quay/claircore/verifharness/internal/hx"
 	"strings"
 )
 
@@ -243,6 +244,36 @@ var witnesses = []witness{
 	})},
 	// quadratic rpm.FileInstalledByRPM on layers without an rpm database
 	{"many-package-json-3000", manyPackageJSON(3000)},
+	// ... and on layers with one: the database is parsed once per layer, not
+	// once per candidate file (the files cache is reference counted; a
+	// reference that ends with each lookup drops the entry between lookups)
+	{"rpm-ndb-and-200-jars-that-take-a-millisecond", func() []byte {
+		// the same with candidates whose examination takes long enough for the
+		// goroutine that gives a cache reference back to run in between (a
+		// 256 KiB manifest, deflated to a few hundred bytes)
+		r := hx.NewRand(78)
+		var hs [][]byte
+		for i := 0; i < 200; i++ {
+			hs = append(hs, genRpmHeaderBlob(r))
+		}
+		b := rawTarFile("usr/lib/sysimage/rpm/Packages.db", buildNdb(hs, 1, false))
+		mf := []byte("Manifest-Version: 1.0\r\nImplementation-Title: t\r\nImplementation-Version: 1.0\r\n" + strings.Repeat("X-Pad: "+strings.Repeat("a", 60)+"\r\n", 3800) + "\r\n")
+		for k := 0; k < 200; k++ {
+			z := buildZip([]zipMember{{name: "META-INF/", method: zip.Store}, {name: "META-INF/MANIFEST.MF", body: mf, method: zip.Deflate}}, "")
+			b = append(b, rawTarFile(fmt.Sprintf("opt/app/lib/j%d.jar", k), z)...)
+		}
+		return append(b, rawTarEnd()...)
+	}},
+	{"rpm-ndb-and-1500-package-json", func() []byte {
+		r := hx.NewRand(77)
+		var hs [][]byte
+		for i := 0; i < 200; i++ {
+			hs = append(hs, genRpmHeaderBlob(r))
+		}
+		b := rawTarFile("usr/lib/sysimage/rpm/Packages.db", buildNdb(hs, 1, false))
+		b = append(b, manyPackageJSON(1500)()...)
+		return b
+	}},
 	{"bdb-name-tag-of-integer-type", rpmLayer("var/lib/rpm/Packages", func() []byte {
 		return buildBdb(binary.LittleEndian, 512, [][]byte{tinyRpmHeader()}, false)
 	})},
